@@ -10,7 +10,7 @@
 (* which the mechanism *as coded* violates them are listed (MVIOL).        *)
 (***************************************************************************)
 EXTENDS Session
-CONSTANTS Mode, MaxLen, PostLen, Deep
+CONSTANTS Mode, MaxLen, PostLen, Deep, Prune   \* Deep: all configurations / parrots; Prune: sequence pruning rules of the quick tier
 VARIABLES cfg, hist, ua, ur, ra, rr   \* configuration, call history, UConn model as coded / repaired, predicted results
 
 Sd(base, custom, drop, skipnil, omit) == [base |-> base, custom |-> custom, drop |-> drop, skipnil |-> skipnil, omitpsk |-> omit]
@@ -50,7 +50,7 @@ StaticEnv(c) == [specT |-> SdT(c.sd), specP |-> SdP(c.sd), custom |-> c.sd.custo
                   max |-> SdMax(c.sd), cacheVers |-> CachedVers(c), injVers |-> 0]
 EnvOf(c, ops) == [c.env EXCEPT !.injVers = IF Injection(ops) = "init" THEN 12 ELSE IF Injection(ops) = "real" THEN 13 ELSE 0]
 MSrv(c) == [max |-> c.srvmax, hrr |-> c.hrr, canA |-> TRUE, canB |-> TRUE]
-Halt(r) == Len(r) > 0 /\ r[Len(r)] \in {"panic", "rtpanic"}
+Halt(r) == Len(r) > 0 /\ r[Len(r)] \in {"panic", "rtpanic", "nilpanic"}
 Stopped == Halt(rr)
 HSop == [i \in 1..1 |-> Op("Handshake", "")]
 ConnRec(sd, name, srv, cache, cfgcache, ops, alias, role) ==
@@ -78,9 +78,9 @@ StepM(u, r, op, env, fix) == IF Halt(r) THEN [u |-> u, res |-> r]
 C20Next == /\ Len(hist) < MaxLen /\ ~Stopped
            /\ HasHandshake(hist) => Len(hist) < PostLen
            /\ \E op \in Alphabet(cfg) :
-                /\ (~Deep /\ Passive(op)) => \A i \in DOMAIN hist : ~Passive(hist[i])   \* quick tier: one no-op setter per sequence
-                \* quick tier: once the history has left the documented orders only Build / Handshake follow
-                /\ (~Deep /\ ~Legal(hist, cfg.env, cfg.cfgcache)) => op.op \in {"Build", "Handshake"}
+                /\ (Prune /\ Passive(op)) => \A i \in DOMAIN hist : ~Passive(hist[i])   \* pruning: one no-op setter per sequence
+                \* pruning: once the history has left the documented orders only Build / Handshake follow
+                /\ (Prune /\ ~Legal(hist, cfg.env, cfg.cfgcache)) => op.op \in {"Build", "Handshake"}
                 \* a HelloCustom UConn without a preset has nothing to build: not a question about the session API
                 /\ (cfg.sd.custom /\ op.op \in {"Build", "BuildNoSess", "Handshake"}) => \E i \in DOMAIN hist : hist[i].op = "Preset"
                 /\ (Len(hist) = MaxLen - 1 /\ ~HasHandshake(hist)) => op.op = "Handshake"
@@ -119,7 +119,7 @@ C19Space(h) ==
   CASE Len(h) = 0 -> { Cd(sd, "a.example", srv, 0) : sd \in C19Parrots, srv \in {s \in C19Srvs : s.keys = 1} }
     [] Len(h) = 1 -> { Cd(sd, n, srv, c) : sd \in C19Parrots, n \in C19Names, srv \in C19Srvs, c \in {0, 8} }
     [] OTHER -> IF Deep
-                THEN { Cd(sd, n, srv, c) : sd \in {h[1].spec, h[2].spec}, n \in {h[1].name, h[2].name}, srv \in {h[1].srv, h[2].srv}, c \in {h[2].clock, 8} }
+                THEN { Cd(sd, n, srv, h[2].clock) : sd \in {h[1].spec, h[2].spec}, n \in {h[1].name, h[2].name}, srv \in {h[1].srv, h[2].srv} }
                 ELSE { h[2], [h[1] EXCEPT !.clock = h[2].clock] }
 VARIABLES mA, mR      \* C19 model state as coded / repaired: [cache, outs, offs, pre]
 C19M0 == [cache |-> [n \in C19Names |-> NoEntry], outs |-> <<>>, offs |-> <<>>, pre |-> <<>>]
